@@ -535,6 +535,54 @@ def gen_items_text(rng, n, bbox, la, ids, jitter=True) -> List[Any]:
     return items
 
 
+def gen_items_runs(rng, n, bbox, la, ids, vertical: bool) -> List[Any]:
+    """Parallel runs (lines; columns when `vertical`) set in DIFFERENT sizes whose spans in the stacking
+    direction overlap, nest or sit around the line_margin tolerance, start-aligned so that they are
+    neighbours and land in one text box: the order of the far edges then differs from the order of the
+    near edges (what LTTextBox*.analyze must sort by)."""
+    x0, y0, x1, y1 = bbox
+    lm = abs(F(la["line_margin"]))
+    eps = [F(0), F(1, 64), F(-1, 64), F(1, 4)]
+    items: List[Any] = []
+    size = rng.choice([F(8), F(10), F(12), F(16)])       # extent in the stacking direction
+    adv = rng.choice([F(4), F(6), F(8)])                  # advance along the run
+    start = F(600) - dyadic(rng, 0, 200)                  # where every run starts (aligned edge)
+    cross = F(300) + dyadic(rng, -100, 100)               # near edge of the current run (stacking direction)
+    k = 0
+    while len(items) < n:
+        k += 1
+        m = rng.randint(1, 5)
+        st = start + rng.choice([F(0), F(0), F(round(lm * size * 64), 64) + rng.choice(eps), F(1), F(-2)])
+        for j in range(m):
+            pos = st - j * (adv + rng.choice([F(0), F(0), F(1, 2)])) if vertical else st + j * (adv + rng.choice([F(0), F(0), F(1, 2)]))
+            jit = F(k % 11, 1024)
+            if vertical:   # column: glyphs go down, column occupies [cross, cross + size] in x
+                items.append(["c", next(ids), fs(cross + jit), fs(pos - adv), fs(cross + jit + size), fs(pos), gen_text(rng)])
+            else:          # line: glyphs go right, line occupies [cross - size, cross] in y
+                items.append(["c", next(ids), fs(pos), fs(cross - size + jit), fs(pos + adv), fs(cross + jit), gen_text(rng)])
+        # a far-away glyph now and then keeps consecutive runs from being chained by group_objects
+        if rng.random() < 0.3:
+            items.append(["c", next(ids), fs(x1 + 500), fs(y1 + 500 + 20 * k), fs(x1 + 506), fs(y1 + 510 + 20 * k), "q"])
+        d = F(round(lm * size * 64), 64)          # keep the coordinates short dyadics
+        new_size = size + rng.choice([F(0), F(0), d + rng.choice(eps), -d / 2, F(2), F(-2), d / 2])
+        if new_size <= 0:
+            new_size = size
+        r = rng.random()
+        if r < 0.35:      # next to it
+            step = size + rng.choice([F(0), F(1), d + rng.choice(eps), F(1, 2)])
+        elif r < 0.9:     # overlapping / nested: near-edge order and far-edge order may differ
+            if new_size == size:
+                new_size = size + rng.choice([F(2), F(-2), d / 2 if d > 0 else F(1)])
+                if new_size <= 0:
+                    new_size = size + 2
+            step = rng.choice([F(1), F(2), size / 2, -new_size / 2, F(-1), size - new_size - 1, size - new_size + 1])
+        else:             # a new block
+            step = size + F(40)
+        cross = cross + step if vertical else cross - step
+        size = new_size
+    return items[:max(n, 1)]
+
+
 def gen_case(rng, max_glyphs: int, extreme: bool = False) -> Dict[str, Any]:
     la = gen_la(rng)
     r = rng.random()
@@ -548,7 +596,17 @@ def gen_case(rng, max_glyphs: int, extreme: bool = False) -> Dict[str, Any]:
     counter = iter(range(1, 1 << 30))
     n = rng.randint(1, max_glyphs) if rng.random() < 0.9 else rng.randint(0, 2)
     kind = rng.random()
-    if kind < 0.6:
+    if kind < 0.22:
+        # runs of different sizes in one box; vertical runs need detect_vertical
+        vertical = rng.random() < 0.6
+        if vertical:
+            la["detect_vertical"] = True
+        if rng.random() < 0.7:
+            la["line_margin"] = fs(rng.choice([F(1, 2), F(1), F(2), F(1, 4)]))
+            la["line_overlap"] = fs(rng.choice([F(1, 2), F(1, 4)]))
+            la["char_margin"] = fs(rng.choice([F(2), F(1)]))
+        items = gen_items_runs(rng, n, bbox, la, counter, vertical)
+    elif kind < 0.6:
         items = gen_items_text(rng, n, bbox, la, counter, jitter=rng.random() < 0.8)
     elif kind < 0.85:
         items = gen_items_scatter(rng, n, bbox, counter)
@@ -581,6 +639,20 @@ def gen_case(rng, max_glyphs: int, extreme: bool = False) -> Dict[str, Any]:
             out.append(["f", next(counter)] + [fs(v) for v in fb] + [sub])
         out.append(it)
     return {"bbox": [fs(v) for v in bbox], "la": la, "items": out}
+
+
+def float_exact(case) -> bool:
+    """All numbers are short dyadics, so that the implementation's float arithmetic is exact on this case."""
+    def ok(v):
+        f = F(v)
+        return f.denominator <= 4096 and (f.denominator & (f.denominator - 1)) == 0 and abs(f.numerator) < (1 << 26)
+
+    def items_ok(items):
+        return all((items_ok(it[6]) if it[0] == "f" else True) and all(ok(v) for v in it[2:6]) for it in items)
+    la = case["la"]
+    return (items_ok(case["items"]) and all(ok(v) for v in case["bbox"])
+            and all(ok(la[k]) for k in ("line_overlap", "char_margin", "line_margin", "word_margin"))
+            and (la.get("boxes_flow") is None or ok(la["boxes_flow"])))
 
 
 def n_glyphs(case) -> int:
